@@ -225,6 +225,198 @@ func ruleFieldBij(r *Run) {
 		r.Check("field-bij", x+":from-request", st.Pos(), bad == "",
 			fmt.Sprintf("SetPageSettings writes %s: %s", x, map[bool]string{true: "the value comes from the request only", false: "its value can flow from " + bad + " — for some request the attribute keeps its old value although the call named it (reading back does not return the most recent value)"}[bad == ""]))
 	}
+	// (1d) omitted attributes and read defaults agree.  Where GetPageSettings assigns an integer
+	// setting only when the attribute is present (`if X != "" { P = parse(X) }`), an absent attribute
+	// reads as the default d the settings object was constructed with.  If SetPageSettings can leave
+	// that attribute out — the store is conditional on P, or the text comes from a helper that
+	// returns "" for some values — then d itself must be among the values it leaves out: otherwise
+	// there are values v (the omitted ones) with Get(Set(v)) = d ≠ v.
+	{
+		ctorDefault := func(field string) int64 {
+			var d int64
+			for _, g := range helperGroup(p, getFn) {
+				allInstrs(g, func(in ssa.Instruction) {
+					c, ok := in.(*ssa.Call)
+					if !ok {
+						return
+					}
+					cal := staticCallee(c)
+					if cal == nil || !p.inModule(cal) || cal.Signature.Results().Len() != 1 || !typeIs(cal.Signature.Results().At(0).Type(), pkgDoc, "PageSettings") {
+						return
+					}
+					allInstrs(cal, func(in2 ssa.Instruction) {
+						if st, ok := in2.(*ssa.Store); ok {
+							if fv, _ := fieldOfAddr(st.Addr); fv != nil && fv.Name() == field {
+								if k, ok := constInt(st.Val); ok {
+									d = k
+								}
+							}
+						}
+					})
+				})
+			}
+			return d
+		}
+		// evalCmp: the truth of `v op k` for v = d
+		evalCmp := func(op token.Token, d, k int64) (bool, bool) {
+			switch op {
+			case token.GTR:
+				return d > k, true
+			case token.GEQ:
+				return d >= k, true
+			case token.LSS:
+				return d < k, true
+			case token.LEQ:
+				return d <= k, true
+			case token.EQL:
+				return d == k, true
+			case token.NEQ:
+				return d != k, true
+			}
+			return false, false
+		}
+		for _, pk := range keysOfInfo(getM) {
+			gi := getM[pk]
+			gst, ok := gi.pos.(*ssa.Store)
+			if !ok {
+				continue
+			}
+			if b, ok := gst.Val.Type().Underlying().(*types.Basic); !ok || b.Info()&types.IsInteger == 0 {
+				continue
+			}
+			// the read is guarded by presence of exactly one attribute
+			var xField string
+			for _, c := range strCompares(gst.Parent()) {
+				if c.Const != "" || c.If == nil || c.Region[gst.Block()] {
+					continue
+				}
+				blk := c.If.Block()
+				if len(blk.Succs) != 2 {
+					continue
+				}
+				neSucc := blk.Succs[0]
+				if c.Region[neSucc] {
+					neSucc = blk.Succs[1]
+				}
+				if !edgeRegion(blk, neSucc)[gst.Block()] {
+					continue
+				}
+				for f := range dsl.Slice(c.Operand).fieldsReadOf(p, xmlOwners) {
+					if gi.data[f] {
+						xField = f
+					}
+				}
+			}
+			if xField == "" {
+				continue
+			}
+			si := setM[xField]
+			if si == nil {
+				continue
+			}
+			pName := strings.TrimPrefix(pk, "PageSettings.")
+			d := ctorDefault(pName)
+			for _, rs := range si.all {
+				_ = rs
+			}
+			sst, ok := si.pos.(*ssa.Store)
+			if !ok {
+				continue
+			}
+			// (b) the text comes from a helper that returns "" on some path
+			omitsSome, omitsDefault, how := false, false, ""
+			if hc, ok := stripConv(sst.Val).(*ssa.Call); ok {
+				if h := staticCallee(hc); h != nil && p.inModule(h) && len(h.Blocks) > 0 {
+					for _, ret := range returnsOf(h) {
+						if len(ret.Results) != 1 {
+							continue
+						}
+						if sv, isC := constString(ret.Results[0]); !isC || sv != "" {
+							continue
+						}
+						omitsSome = true
+						how = shortName(h) + " returns \"\" for some values"
+						// the conditions on the helper's integer parameter that lead to this return
+						okAll := true
+						for _, blk := range h.Blocks {
+							if len(blk.Succs) != 2 || !blk.Dominates(ret.Block()) || blk == ret.Block() {
+								continue
+							}
+							iff, ok := blk.Instrs[len(blk.Instrs)-1].(*ssa.If)
+							if !ok {
+								continue
+							}
+							cmp, ok := iff.Cond.(*ssa.BinOp)
+							if !ok {
+								continue
+							}
+							if _, isPar := stripConv(cmp.X).(*ssa.Parameter); !isPar {
+								continue
+							}
+							k, isK := constInt(cmp.Y)
+							if !isK {
+								continue
+							}
+							truth, ok := evalCmp(cmp.Op, d, k)
+							if !ok {
+								continue
+							}
+							// which edge leads to the "" return?
+							onTrue := edgeRegion(blk, blk.Succs[0])[ret.Block()]
+							onFalse := edgeRegion(blk, blk.Succs[1])[ret.Block()]
+							if onTrue && !onFalse && !truth || onFalse && !onTrue && truth {
+								okAll = false
+							}
+						}
+						if okAll {
+							omitsDefault = true
+						}
+					}
+				}
+			}
+			// (a) the store itself is conditional on a comparison of the setting
+			if !omitsSome {
+				for _, blk := range sst.Parent().Blocks {
+					if len(blk.Succs) != 2 || !blk.Dominates(sst.Block()) || blk == sst.Block() {
+						continue
+					}
+					iff, ok := blk.Instrs[len(blk.Instrs)-1].(*ssa.If)
+					if !ok {
+						continue
+					}
+					cmp, ok := iff.Cond.(*ssa.BinOp)
+					if !ok {
+						continue
+					}
+					k, isK := constInt(cmp.Y)
+					if !isK {
+						continue
+					}
+					reads := dsl.Slice(cmp.X).fieldsReadOf(p, psOwner)
+					if !reads[pk] || len(reads) != 1 {
+						continue
+					}
+					truth, ok := evalCmp(cmp.Op, d, k)
+					if !ok {
+						continue
+					}
+					omitsSome = true
+					how = "the store is conditional on " + pk
+					onTrue := edgeRegion(blk, blk.Succs[0])[sst.Block()]
+					// stored on the true edge: omitted when the comparison is false
+					if onTrue && !truth || !onTrue && truth {
+						omitsDefault = true
+					}
+				}
+			}
+			if !omitsSome {
+				continue
+			}
+			r.Check("field-bij", pk+"<-"+xField+":omitted-default", sst.Pos(), omitsDefault,
+				fmt.Sprintf("SetPageSettings can leave %s out (%s) and GetPageSettings reads an absent %s as the default %d: %s", xField, how, xField, d,
+					map[bool]string{true: "the default is among the values left out", false: "but the default is not among the values left out — the values that ARE left out read back as the default, not as what the call named"}[omitsDefault]))
+		}
+	}
 	// (2) every PageSettings field Set consumes is restored by Get
 	consumed := map[string]bool{}
 	for _, si := range setM {
